@@ -30,6 +30,7 @@ mod vrlrun_c27;
 mod rng;
 mod sink;
 mod sweep;
+mod typed;
 mod wire;
 
 use sink::Reply;
@@ -53,6 +54,7 @@ const EXECS: &[Exec] = &[
     c15::exec,
     sweep::exec,
     c14::exec,
+    typed::exec,
     c23::exec,
     c24::exec,
     c35::exec,
@@ -78,6 +80,9 @@ fn generate(prop: &str, sink: &mut sink::Sink, rng: &mut rng::Rng, n: u64) -> bo
         "C07" => lang::generate(sink, rng, n, false, Some("o.c07")),
         "C08" => lang::generate(sink, rng, n, false, Some("o.c08")),
         "C09" => lang::generate(sink, rng, n, false, Some("o.c09")),
+        "C01" => typed::generate(sink, rng, n, "o.c01"),
+        "C02" => typed::generate(sink, rng, n, "o.c02"),
+        "C12" => typed::generate(sink, rng, n, "o.c12"),
         "C04" => sweep::generate(sink, rng, n, "o.c04.fn"),
         "C05" => sweep::generate(sink, rng, n, "o.c05.fn"),
         "C14" => c14::generate(sink, rng, n),
